@@ -139,7 +139,9 @@ def validate(
         else:
             continue
         if validator.field is not None:
-            alias = getattr(get_alias(validator.owner), get_field_name(validator.field))
+            # fields (and the class aliaser) are those of the validated object's class, which
+            # can be a subclass of the validator's owner
+            alias = getattr(get_alias(obj), get_field_name(validator.field))
             err = ValidationError(children={aliaser(alias): err})
         error = merge_errors(error, err)
         if validator.discard:
